@@ -1,8 +1,18 @@
 """Registry entry, manifest texts for C07."""
 
 ENTRY = {'parts': [{'scenario': 'scenarios.s_pool', 'chunk': 6}],
-         'quick': {'runs': 2500, 'budget': 50}, 'thorough': {'runs': 150000, 'budget': 1200}}
+         'quick': {'runs': 2500, 'budget': 55}, 'thorough': {'runs': 150000, 'budget': 1200}}
 
-TEXT = {'level': 'TODO', 'ref': 'DESIGN.md 5 (C07), 4 (S-POOL)', 'note': 'TODO'}
-
-ENABLED = False
+TEXT = {'level': 'Seeded search over job mixes x close() instants x recycling settings, with and without helper '
+          'threads: close() at a generated step relative to job progress, then join(). Oracle: every job '
+          'submitted before close resolves with its real result, submissions after close get no handle, '
+          'join() returns (deadlock detector / horizon), no worker waits out its 30 s result-consumption '
+          'guard while the parent consumes (probe wrapped around Worker._ensure_messages_consumed, not a '
+          'stopwatch), join tail < 25 s, afterwards every worker pid is dead and reaped and supervisor / '
+          'task / result threads have ended.',
+ 'note': 'Trusted: the simulated kernel (simos) models Linux semaphores, pipes, poll, process table, signals '
+         'and wait statuses faithfully (stub conformance: selftest/conformance.py); BaseProcess._bootstrap '
+         'is replaced by a replica of its exit-code mapping (checked by C19); start method is spawn-like '
+         '(pickled copy). Workers die uncatchably only inside task code or between jobs; pipes do not lose '
+         'bytes. Sampling, not proof.',
+ 'ref': 'DESIGN.md 5 (C07), 3, 4 (S-POOL)'}
